@@ -42,6 +42,7 @@ func ScanAll(text []byte) (toks [][]any, errs []int, panicked any) {
 			panicked = r
 		}
 	}()
+	defer HangGuard(fmt.Sprintf("scanning %q", text))()
 	nerr := 0
 	sc := formula.CreateScanner(text, func(msg *formula.DiagnosticMessage, pos int, length int) { nerr++ })
 	for i := 0; i <= len(text)+1; i++ {
